@@ -108,8 +108,6 @@ func c14rtRun(r *vfRand, c *c14rtCase, tr *zzc14.Trace) (*zzc14.Plan, string) {
 		return i
 	}
 	if err != nil {
-		plan.Close = func() error { return nil }
-		plan.CloseAt = 0
 		plan.Run(tr)
 		return plan, "ctor error"
 	}
